@@ -224,5 +224,5 @@ def phases(tier):
     quick = tier == 'quick'
     return [
         Phase('enumerated', check_case, gen=gen_enumerated(4 if quick else 5)),
-        Phase('random', check_case, strategy=strategy, examples=1500 if quick else 30000),
+        Phase('random', check_case, strategy=strategy, examples=4000 if quick else 30000),
     ]
